@@ -1,1 +1,92 @@
-From CMinx Require Import Base.Str.
+(* Properties/C07.v -- Generated reST is structurally well formed.
+   Only theorem statements; proofs are in Proofs/RstStructure.v, WriterFacts.v, PageFacts.v.
+   Partial: 'parses without an error-level message' is a statement about docutils, which is not
+   modelled; the harness validates it (docutils 0.23, stub directives).  What is proved is the
+   block structure that reST's indentation rule gives the page: a small reader of the block
+   skeleton (top_blocks: a block starts at every non-blank line in column 0; read: directive tree
+   by indentation) inverts the writer on every page the pipeline produces. *)
+From Coq Require Import String List.
+From CMinx Require Import Base.Str Model.Parser Model.Writer Model.DocTypes Model.Aggregator
+     Model.Pipeline Proofs.WriterFacts Proofs.RstStructure Proofs.PageFacts.
+Import ListNotations.
+
+(* every entry renders to exactly one directive *)
+Theorem C07_render_entry_is_dir : forall e, exists n a o b, render_entry e = Dir n a o b.
+Proof. exact render_entry_is_dir. Qed.
+Print Assumptions C07_render_entry_is_dir.
+
+(* the page is the title frame followed by the body *)
+Theorem C07_page_after_frame :
+  forall hdrs title modname docs,
+    no_nl (nth 0 hdrs []) = true -> no_nl (fst (finalize title modname docs)) = true ->
+    skipn 4 (lines (render_page hdrs title modname docs))
+    = body_lines hdrs (snd (finalize title modname docs)).
+Proof. exact page_after_frame. Qed.
+Print Assumptions C07_page_after_frame.
+
+(* the top-level blocks of the body are, in order, one block per element: the entries are
+   top-level siblings (doc texts arbitrary; names and argument values without line breaks) *)
+Theorem C07_page_top_blocks :
+  forall hdrs ds, forallb entry_plain ds = true ->
+    preamble (body_lines hdrs ds) = [[]]
+    /\ top_blocks (body_lines hdrs ds) = map (fun e => block_lines hdrs (render_entry e)) ds.
+Proof. exact page_top_blocks. Qed.
+Print Assumptions C07_page_top_blocks.
+
+(* for every accepted file: module directive first, exactly one, then the entries *)
+Theorem C07_pipeline_page_shape :
+  forall fl trigger strip_fn strip_mac strip_mem hdrs f st title modname,
+    aggregate fl trigger strip_fn strip_mac strip_mem f = Ok st ->
+    let ds := snd (finalize title modname (documented st)) in
+    forallb entry_plain ds = true ->
+    exists mname mdoc rest,
+      ds = EModule mname mdoc :: rest
+      /\ top_blocks (body_lines hdrs ds)
+         = block_lines hdrs (render_entry (EModule mname mdoc))
+           :: map (fun e => block_lines hdrs (render_entry e)) rest
+      /\ is_module_block (hd [] (top_blocks (body_lines hdrs ds))) = true
+      /\ length (filter is_module_block (top_blocks (body_lines hdrs ds))) = 1.
+Proof. exact pipeline_page_shape. Qed.
+Print Assumptions C07_pipeline_page_shape.
+
+(* everything an entry contributes after its heading (notes, warnings, fields, options, doc text,
+   members) lies inside that entry's block: one column-0 line per block, the heading *)
+Theorem C07_nested_content_owned :
+  forall hdrs ds i e, forallb entry_plain ds = true -> nth_error ds i = Some e ->
+    exists heading,
+      nth_error (top_blocks (body_lines hdrs ds)) i
+      = Some (heading :: skipn 2 (lines (elem_text hdrs 0 0 (render_entry e))) ++ [[]])
+      /\ nth 1 (lines (elem_text hdrs 0 0 (render_entry e))) [] = heading
+      /\ is_top heading = true
+      /\ Forall not_top (skipn 2 (lines (elem_text hdrs 0 0 (render_entry e))) ++ [[]]).
+Proof. exact nested_content_owned. Qed.
+Print Assumptions C07_nested_content_owned.
+
+Theorem C07_blocks_partition :
+  forall hdrs ds, forallb entry_plain ds = true ->
+    body_lines hdrs ds = [] :: concat (top_blocks (body_lines hdrs ds)).
+Proof. exact page_blocks_partition. Qed.
+Print Assumptions C07_blocks_partition.
+
+(* the recursive reader (directive tree by indentation) inverts the writer at every depth *)
+Theorem C07_read_inverts_writer :
+  forall hdrs lvl d e fuel, plain e = true -> rsafe e = true ->
+    length (lines (elem_text hdrs lvl d e)) <= fuel ->
+    read fuel d (lines (elem_text hdrs lvl d e)) = skel_of e.
+Proof. exact read_inverts_writer. Qed.
+Print Assumptions C07_read_inverts_writer.
+
+Theorem C07_read_page_body :
+  forall hdrs ds fuel, forallb entry_plain ds = true ->
+    forallb (fun e => rsafe (render_entry e)) ds = true ->
+    length (body_lines hdrs ds) <= fuel ->
+    read fuel 0 (body_lines hdrs ds) = flat_map (fun e => skel_of (render_entry e)) ds.
+Proof. exact read_page_body. Qed.
+Print Assumptions C07_read_page_body.
+
+(* the premise 'argument values contain no line breaks' is needed: a value with a line break
+   escapes its directive *)
+Theorem C07_value_with_newline_escapes_refuted :
+  ltac:(let t := type of page_top_blocks_refuted in exact t).
+Proof. exact page_top_blocks_refuted. Qed.
+Print Assumptions C07_value_with_newline_escapes_refuted.
